@@ -125,6 +125,22 @@ func newBWorld(r *Rng, o *Out) *bWorld {
 	return w
 }
 
+// caseFlipOne flips the case of one letter of s (s itself if it has no letter)
+func caseFlipOne(r *Rng, s string) string {
+	var idx []int
+	for i := 0; i < len(s); i++ {
+		if (s[i] >= 'a' && s[i] <= 'z') || (s[i] >= 'A' && s[i] <= 'Z') {
+			idx = append(idx, i)
+		}
+	}
+	if len(idx) == 0 {
+		return s
+	}
+	b := []byte(s)
+	b[pick(r, idx)] ^= 0x20
+	return string(b)
+}
+
 // mint one permission-shaped token and its satellite entries
 func (w *bWorld) mintFamily() {
 	r, o := w.r, w.o
@@ -141,7 +157,12 @@ func (w *bWorld) mintFamily() {
 		key = r.Bytes(32)
 		kind = "unknownkid"
 	case 2:
-		loc = pick(r, []string{"https://elsewhere.example", w.permLoc + "/", ""})
+		// (foreign tokens keep the issuer's key: only the location tells them apart; among them locations that
+		// differ from the issuer's in letter case only)
+		loc = pick(r, []string{"https://elsewhere.example", w.permLoc + "/", "", strings.ToUpper(w.permLoc), caseFlipOne(r, w.permLoc)})
+		if loc == w.permLoc {
+			loc = w.permLoc + "x"
+		}
 		kind = "foreign"
 	}
 	m, err := macaroon.New(kid, loc, key)
